@@ -95,7 +95,8 @@ func (ss *serverStream) setHeader(md metadata.MD, send bool) error {
 		return fmt.Errorf("headers already sent")
 	}
 
-	ss.protected.headers = append(ss.protected.headers, md)
+	// Keep what was set now: the handler may reuse or change md afterwards.
+	ss.protected.headers = append(ss.protected.headers, md.Copy())
 
 	if !send {
 		return nil
@@ -139,7 +140,7 @@ func (ss *serverStream) SetTrailer(md metadata.MD) {
 		return // I want to scream but I have no mouth
 	}
 
-	ss.protected.trailers = append(ss.protected.trailers, md)
+	ss.protected.trailers = append(ss.protected.trailers, md.Copy())
 }
 
 // Context returns the context for this stream.
